@@ -45,7 +45,7 @@ func (z zvSliceQ) Apply(c vrt.ConcCall) (r vrt.ConcRes) {
 }
 
 func (z zvSliceQ) Observe(_ []int) []int {
-	var out []int
+	out := []int{z.q.Size()} // Size is observable too: a count driven below zero drains like an empty queue
 	for i := 0; i < 8; i++ {
 		v, err := z.q.Dequeue()
 		if err != nil {
@@ -80,7 +80,7 @@ func (z zvLinkedQ) Apply(c vrt.ConcCall) (r vrt.ConcRes) {
 }
 
 func (z zvLinkedQ) Observe(_ []int) []int {
-	var out []int
+	out := []int{z.q.Size()} // Size is observable too: a count driven below zero drains like an empty queue
 	for i := 0; i < 8 && z.q.Size() > 0; i++ {
 		out = append(out, z.q.Dequeue())
 	}
@@ -125,8 +125,11 @@ func zvVals(max int) []int {
 func zvQFollow(q vrt.ConcInst) bool {
 	y := vrt.Int()
 	r := q.Apply(vrt.ConcCall{K: zqEnqueue, X: y})
-	obs := q.Observe(nil)
-	return vrt.And(!r.Pan, len(obs) >= 1, obs[len(obs)-1] == y)
+	obs := q.Observe(nil) // [Size, drained elements...]
+	if len(obs) < 2 {
+		return false // the enqueued element was not delivered at all
+	}
+	return vrt.And(!r.Pan, obs[0] >= 1, obs[len(obs)-1] == y)
 }
 
 func ZvC01_Queue() {
